@@ -605,6 +605,13 @@ def rand_text(rng, maxlen):
     return "".join(rng.choice(RAND_ALPHA) for _ in range(n))[:maxlen]
 
 
+# non-ASCII letters / digits / marks next to ASCII word characters and punctuation: the word text
+# objects and motions classify characters with ASCII classes ([a-zA-Z0-9_], \\s, the rest)
+UNI_ALPHA = ["a", "\u00e9", "\u00b2", "\u754c", "\u0301", ".", " ", "_"]
+UNI_MOTIONS = ["w", "W", "b", "B", "e", "E", "ge", "gE", "iw", "aw", "iW", "aW", "h", "l", "$", "0"]
+UNI_OPS = ["d", "y", "c", '"qd', ">", "g?"]      # no case operators: their model maps are ASCII
+
+
 COUNTS_Q = [(None, None), (2, None), (None, 10), (2, 3)]
 COUNTS_T = [(None, None), (2, None), (None, 5), (2, 5), (101, None), (None, 10), (2, 10), (None, 101)]
 
@@ -650,6 +657,22 @@ def gen_cases(chk):
         c1, c2 = rng.choice(COUNTS_T)
         cases.append(key_case(t, cur, rng.choice(OP_ORDER), rng.choice(mnames), c1, c2))
         dist["random_key"] += 1
+    # non-ASCII word characters: word motions and word objects on all short texts over UNI_ALPHA
+    p_u = 0.2 if thorough else 0.02
+    for t in all_texts(3, UNI_ALPHA):
+        for cur in nav_cursors(t):
+            for mn in UNI_MOTIONS:
+                for on in UNI_OPS:
+                    for (c1, c2) in ((None, None), (None, 2)):
+                        if rng.random() < p_u:
+                            cases.append(key_case(t, cur, on, mn, c1, c2))
+                            dist["unicode_words"] = dist.get("unicode_words", 0) + 1
+    for _ in range(6000 if thorough else 1200):
+        t = "".join(rng.choice(UNI_ALPHA + ["b", "(", "x", "\n"]) for _ in range(rng.choice([4, 6, 8, 12])))
+        cur = rng.choice(nav_cursors(t))
+        c1, c2 = rng.choice(COUNTS_Q)
+        cases.append(key_case(t, cur, rng.choice(UNI_OPS), rng.choice(UNI_MOTIONS + ["iw", "aw", "iw", "aw"]), c1, c2))
+        dist["unicode_words"] = dist.get("unicode_words", 0) + 1
     # sessions: a cancelled operator (Esc, f<Esc>) or a completed command, then another command
     nsess = 30000 if thorough else 3500
     plain_ops = ["d", "y", "g~", "gU", ">"]
@@ -809,6 +832,8 @@ def oracle_session(recs):
         if not opname:
             continue
         bad = oracle(pre_t, pre_c, opname, MOTIONS[end], (c1 or 1) * (c2 or 1), o, tobj, failed, None)
+        if bad is None and o["status"] == 0:
+            bad = oracle_word_object(pre_t, pre_c, end, tobj)
         if bad:
             return (bad[0] + " [command %r of the session]" % cmd_keys(cmd), bad[1], OPGROUP[OPS[opname][2]])
         # the count bookkeeping: the object handed to the operator must be the one the motion gives for
@@ -818,6 +843,52 @@ def oracle_session(recs):
             if exp is not None and exp != tobj[0]:
                 return ("the operator was applied to a text object starting at %+d, but <count x count> %s from here starts at %+d [command %r]" % (
                     tobj[0], end, exp, cmd_keys(cmd)), "operator-count:" + MOTIONS[end]["group"], OPGROUP[OPS[opname][2]])
+    return None
+
+
+_WORD_CLASSES = None
+
+
+def char_class(c, WORD):
+    """the classes of document.py's word regexes: 0 blank (\\s), 1 [a-zA-Z0-9_], 2 the rest (ASCII classes,
+    also for non-ASCII letters and digits); for WORDs: 0 blank, 1 the rest"""
+    import re
+    if re.match(r"\s", c):
+        return 0
+    if WORD:
+        return 1
+    return 1 if re.match(r"[a-zA-Z0-9_]", c) else 2
+
+
+def expected_word_object(text, cur, WORD, trailing):
+    """(start, end) of iw / aw / iW / aW relative to the cursor when the cursor is on a non-blank
+    character: the maximal run of characters of the cursor character's class on the cursor line
+    (plus the blanks that follow, for the a-objects); None when the cursor is on a blank / line end"""
+    if cur >= len(text) or text[cur] == "\n":
+        return None
+    k = char_class(text[cur], WORD)
+    if k == 0:
+        return None
+    a = cur
+    while a > 0 and text[a - 1] != "\n" and char_class(text[a - 1], WORD) == k:
+        a -= 1
+    b = cur
+    while b < len(text) and text[b] != "\n" and char_class(text[b], WORD) == k:
+        b += 1
+    if trailing:
+        while b < len(text) and text[b] != "\n" and char_class(text[b], WORD) == 0:
+            b += 1
+    return a - cur, b - cur
+
+
+def oracle_word_object(text, cur, mname, tobj):
+    """None or a clause: the object handed to the operator is the word under the cursor"""
+    if mname not in ("iw", "aw", "iW", "aW") or tobj is None:
+        return None
+    exp = expected_word_object(text, cur, mname[1] == "W", mname[0] == "a")
+    if exp is not None and (tobj[0], tobj[1]) != exp:
+        return ("%s: the operator was applied to the span %+d..%+d, but the word under the cursor spans %+d..%+d" % (
+            mname, tobj[0], tobj[1], exp[0], exp[1]), "word-object-span")
     return None
 
 
@@ -998,6 +1069,8 @@ def judge(c, obs, tobj, failed, alone):
             if exp is not None and exp != tobj[0]:
                 bad = ("the operator was applied to a text object starting at %+d, but <count x count> %s from here starts at %+d" % (
                     tobj[0], c[4], exp), "operator-count:" + m["group"])
+        if bad is None and obs["status"] == 0:
+            bad = oracle_word_object(c[1], c[2], c[4], tobj)
     else:
         bad = oracle(c[1], c[2], c[3], None, c[5], obs, tobj, obj_failed(c), None) if in_bounds(c) else None
     return (bad[0], bad[1], OPGROUP[OPS[c[3]][2]]) if bad else None
